@@ -180,7 +180,7 @@ class SymmetryTranslator:
     def __init__(self, prg: list[AST], input_predicates: list[Predicate]):
         self.unique_names = UniqueNames(prg, input_predicates)
         self.rule_dependency = RuleDependency(prg)
-        self.domain_predicates = DomainPredicates(self.unique_names, prg)
+        self.domain_predicates = DomainPredicates(self.unique_names, prg, input_predicates)
 
     Inequalities = dict[ComparisonOperator, list[tuple[AST, AST, AST]]]
 
